@@ -559,6 +559,44 @@ def _operand(self) -> bool:
     self._add_instruction(OpCode.MOVEQ, operand, Register.OPERAND)
     return True
 ''',
+        # D69: after a block the matrix is sent with COLOR whatever commands the block held
+        'matrix_sent_as_color': '''
+def _operand(self) -> bool:
+    if self._current_token.is_a(TokenTypes.GROUP):
+        operand = Operand.GROUP
+        self.next_token()
+    elif self._current_token.is_a(TokenTypes.LOCATION):
+        operand = Operand.LOCATION
+        self.next_token()
+    else:
+        operand = Operand.LIGHT
+    const_str = self._current_str()
+    if len(const_str) > 0:
+        self._add_instruction(OpCode.MOVEQ, const_str, Register.NAME)
+        self.next_token()
+    elif self._current_token.is_a(TokenTypes.NAME):
+        if not self._var_operand():
+            return False
+    else:
+        if self._context.in_matrix():
+            return self.trigger_error('Use of "set" not allowed in this context. Try "stage".')
+        return self.token_error('Needed a device, location, or group, got "{}".')
+    if self._current_token.is_a(TokenTypes.ZONE):
+        if not self._zone_range():
+            return False
+        operand = Operand.MZ_LIGHT
+    elif self._current_token.is_any(TokenTypes.BEGIN, TokenTypes.COLUMN, TokenTypes.ROW):
+        if operand is not Operand.LIGHT:
+            return self.token_error('"{} not allowed with groups or locations.')
+        if self._op_code is not OpCode.COLOR and (not self._current_token.is_a(TokenTypes.BEGIN)):
+            return self.trigger_error('Rows and columns not supported for {}'.format(self._op_code.name.lower()))
+        if not MatrixParser(self).matrix_spec():
+            return False
+        self._op_code = OpCode.COLOR
+        operand = Operand.MATRIX_LIGHT
+    self._add_instruction(OpCode.MOVEQ, operand, Register.OPERAND)
+    return True
+''',
     },
     'Parser._zone_range': {
         'pinned': '''
